@@ -23,7 +23,8 @@ func c01Specs(tier string) []spaceSpec {
 	}
 	if tier == "thorough" {
 		return []spaceSpec{
-			{sp: &gram.Space{Name: "full-1nt", Alpha: gram.Full, NNT: 1, Min: 1, Max: 5}, maxLen: 4, alpha: ab},
+			{sp: &gram.Space{Name: "full-1nt", Alpha: gram.Full, NNT: 1, Min: 1, Max: 4}, maxLen: 4, alpha: ab, noSymmetryCut: true}, // both halves: self-test of the symmetry cut
+			{sp: &gram.Space{Name: "full-1nt", Alpha: gram.Full, NNT: 1, Min: 5, Max: 5}, maxLen: 4, alpha: ab},
 			{sp: &gram.Space{Name: "core-1nt", Alpha: gram.Core, NNT: 1, Min: 6, Max: 7}, maxLen: 4, alpha: ab},
 			{sp: &gram.Space{Name: "full-2nt", Alpha: gram.Full, NNT: 2, Min: 2, Max: 6}, maxLen: 3, alpha: ab},
 			{sp: &gram.Space{Name: "core-2nt", Alpha: gram.Core, NNT: 2, Min: 7, Max: 7}, maxLen: 3, alpha: ab},
